@@ -331,7 +331,7 @@ Inductive hop :=
 | HIns (k : kindtag) (hs : list nat)    (* insert a container built from handles (Map: k v k v ..;
                                            MapSI: values are literal integers) *)
 | HUnion (a b : nat)                    (* union two element handles, then rebuild *)
-| HObs (o : list (nat * list nat)).     (* expected: per handle (class, contents as classes) *)
+| HObs (o : list (list nat)).           (* expected: per handle class :: contents as classes *)
 
 Record hstate := mkHS { hcs : cstate; handles : list nat; hkinds : list (option kindtag) }.
 
@@ -383,8 +383,8 @@ Definition obs_cont (s : hstate) (c : cont) : list nat :=
                                                         if rv then class_of s (snd kv) else snd kv)) l))
   end.
 
-Definition observe (s : hstate) : list (nat * list nat) :=
-  map (fun h => (class_of s (hid s h),
+Definition observe (s : hstate) : list (list nat) :=
+  map (fun h => (class_of s (hid s h) ::
                  match nth h (hkinds s) None with
                  | None => []
                  | Some _ => match get_container (cenv (hcs s)) (hval s h) with
@@ -393,8 +393,7 @@ Definition observe (s : hstate) : list (nat * list nat) :=
                              end
                  end)) (seq 0 (length (handles s))).
 
-Definition obs_eqb (a b : list (nat * list nat)) : bool :=
-  list_eqb (fun x y => (fst x =? fst y) && nats_eqb (snd x) (snd y)) a b.
+Definition obs_eqb (a b : list (list nat)) : bool := list_eqb nats_eqb a b.
 
 Definition hstep (strat : nat -> bool) (s : hstate) (o : hop) : Res (hstate * bool) :=
   let cs := hcs s in
